@@ -28,9 +28,12 @@ statements, so files that 'another party' made vanish or appear are simply part 
 DOS name that is strictly legal 8.3 (no blanks, at most one dot) the set S of host files whose
 name equals it up to capitalisation is computed, and the statement's effect, seen as a host
 directory diff and through the contents read back (every file carries a unique number), must be
-the one the property states. See `_judge28`. Names that are neither strictly legal nor clearly
-illegal (over-long, blanks, leading dot, several dots, bytes >= 0x80, '.', '..') get only the
-capitalisation-consistency check and C27's monitor, because the property is silent on them.
+the one the property states. See `Judge28`. Names that are neither strictly legal nor clearly
+illegal (over-long, blanks, leading dot, several dots, bytes >= 0x80, '.', '..', reserved device
+names) get only C27's monitor and the crash check, because the property is silent on them; the
+BLOAD/BSAVE default extension, KILL/FILES of names with forbidden characters (wildcard matching,
+not name validation) and the choice among several pre-existing host files that differ only in
+case are left unjudged for the same reason.
 """
 
 import os
@@ -70,7 +73,8 @@ _UID = re.compile(br'PRINT (\d{7})')
 
 
 def quick_runs(prop):
-    return 1400 if prop == 'C27' else 1400
+    # ~27 (C27) / ~12 (C28) runs per second per core
+    return 6000 if prop == 'C27' else 2500
 
 
 ###############################################################################
@@ -86,11 +90,11 @@ FORBIDDEN = '+,;=[]|<>*?' + ''.join(chr(c) for c in (1, 7, 27, 31))
 DOS_DEVICES = ('AUX', 'CON', 'NUL', 'PRN', 'COM1', 'COM2', 'COM3', 'COM4', 'LPT1', 'LPT2', 'LPT3', 'CLOCK$')
 
 
-def strictly_legal(name):
+def strictly_legal(name, devices_too=False):
     """(TRUNK, EXT) in upper case if `name` (latin-1 str) is a strictly legal 8.3 name, else None."""
     if not name.isascii():
         return None
-    if aupper(name).partition('.')[0] in DOS_DEVICES:
+    if aupper(name).partition('.')[0] in DOS_DEVICES and not devices_too:
         return None
     if name.endswith('.') and name.count('.') == 1:
         name = name[:-1]
@@ -711,6 +715,10 @@ READERS = ('open_i', 'load', 'run', 'merge', 'chain', 'bload')
 PROGRAM_KINDS = ('load', 'run', 'merge', 'chain', 'save', 'save_a', 'save_p')
 
 
+SHAPE_RANK = ['element-dotdot-blank', 'leaf-dotdot', 'has-dotdot', 'host-absolute', 'leaf-dot', 'trailing-sep',
+              'wildcard', 'plain', 'none']
+
+
 def path_shape(p):
     """Coarse class of a path string, for signatures and state abstraction."""
     if p is None:
@@ -761,7 +769,9 @@ def do_statement(env, op):
     if exprs[1] == b'Q$':
         what += ' [Q$=%r]' % (q,)
     r = env.X(line)
-    shape = path_shape(p) if kind != 'name' or path_shape(p) != 'plain' else path_shape(q)
+    shape = path_shape(p)
+    if kind == 'name' and SHAPE_RANK.index(path_shape(q)) < SHAPE_RANK.index(shape):
+        shape = path_shape(q)
     if env.cwd_escaped:
         # an earlier CHDIR already left the mount: what follows is a consequence, not a new class
         shape = 'after-cwd-escape'
@@ -928,8 +938,11 @@ class Judge28(object):
                 self.violate('illegal-name-accepted:name-target:%s' % ('no-error' if r.err is None else 'err%d' % r.err),
                              'NAME to a name with a forbidden character must give Bad file name (64) and change nothing: ' + ctx)
         # capitalisation consistency for any accepted name (property clause a), text creators only
+        # (syntactically legal names only, reserved device names included: a host file did get created
+        # under that name; for over-long, multi-dot, blank-padded or high-byte names the property is silent)
         if (kind in ('open_o', 'open_old', 'save_a') and r.err is None and len(created) == 1 and not changed
-                and not removed and ncls in ('weak', 'legal') and N and after[created[0]][0] == 'f'):
+                and not removed and N and strictly_legal(N, devices_too=True) is not None
+                and after[created[0]][0] == 'f'):
             variant = aswap(N)
             if variant != N:
                 r2, what2, x2 = do_statement(env, {'k': 'load' if kind == 'save_a' else 'open_i', 'p': variant, 'uid': op['uid']})
@@ -937,7 +950,8 @@ class Judge28(object):
                 got = uids_in(env.mask(r2.out) + (env.mask(x2.out) if x2 is not None else b''))
                 run.probe('recase-readback')
                 if r2.err is not None or not (want & got):
-                    self.violate('created-file-not-opened-by-other-capitalisation:%s' % ncls,
+                    sub = 'device-name' if aupper(N).partition('.')[0].strip() in DOS_DEVICES else ncls
+                    self.violate('created-file-not-opened-by-other-capitalisation:%s' % sub,
                                  '%s created host file %r; then %s -> err %r, read %r, wanted %r' % (
                                      what, created[0], what2, r2.err, sorted(got), sorted(want)))
         self.basic_made |= set(created)
